@@ -1,5 +1,6 @@
 import McpModel.TypedTool.Lemmas
 import McpModel.TypedTool.GoTy
+import McpModel.TypedTool.GoTyLemmas
 import McpModel.TypedTool.RegistryLemmas
 /-!
 E12 TypedTool — PROPERTY THEOREMS for C16 (DESIGN.md §5).
@@ -122,6 +123,87 @@ theorem invalid_gives_tool_error_without_invocation (E : Env S) (t : Tool S) (h 
   cases hd : defaulted E t.inSchema a with
   | none => simp [errorOutcome]
   | some d => simp [hinv d hd, errorOutcome]
+
+/-! ## input side: which members of the arguments the handler's typed input is made of -/
+
+/-- what the handler sees, as a function of the validated arguments: the typed decoding of the defaulted
+value (nothing, when that value does not decode). -/
+theorem seen_eq_decode (E : Env S) (t : Tool S) (h : JVal → HRet) (a : Args) (d : JVal)
+    (hd : defaulted E t.inSchema a = some d) (hv : E.valid t.inSchema d = true) :
+    (call E t h a).seen = t.decodeIn d := by
+  cases hs : (call E t h a).seen with
+  | none =>
+    cases hx : t.decodeIn d with
+    | none => rfl
+    | some x =>
+      have := (invoked_iff_valid_after_defaults E t h a).2 ⟨d, hd, hv, by simp [hx]⟩
+      simp [hs] at this
+  | some x =>
+    obtain ⟨d', hd', _, hx⟩ := handler_sees_defaulted_args E t h a x hs
+    rw [hd] at hd'; cases hd'; exact hx.symm
+
+/-- **the handler sees exactly the validated members.** For a typed tool whose input type is a struct
+(fields `fs`, pairwise distinct JSON names; any width, any types below): whatever the handler observes
+is an object that has no members but the struct's fields, and EVERY field holds the decoding of the
+member of the validated (defaulted) argument object whose name is EXACTLY the field's JSON name — the
+zero value when there is no member of that exact name. JSON names are case-sensitive: the schema
+validated `"maxItems"`, so `"maxItems"` — and no member spelled `"maxitems"`, `"MAXITEMS"`, … , which
+the schema treated as an additional property — is what the field bound to `maxItems` holds. -/
+theorem handler_sees_exactly_validated_members (E : Env S) (t : Tool S) (h : JVal → HRet) (a : Args)
+    (fs : SFields) (x : JVal)
+    (hdec : t.decodeIn = project (.struct fs)) (hnd : (fieldNames fs).Nodup)
+    (hs : (call E t h a).seen = some x) :
+    ∃ d out, defaulted E t.inSchema a = some d ∧ E.valid t.inSchema d = true ∧ x = .obj out ∧
+      (∀ k, hasKey k out = true → k ∈ fieldNames fs) ∧
+      (∀ n oe ty, (n, oe, ty) ∈ fs →
+        ∃ y, fieldDecode ty (membersOf d) n = some y ∧ lookupJ n out = fieldShown oe ty y) := by
+  obtain ⟨d, hd, hv, hx⟩ := handler_sees_defaulted_args E t h a x hs
+  rw [hdec] at hx
+  obtain ⟨out, hxo, hp⟩ := project_struct fs d x hx
+  exact ⟨d, out, hd, hv, hxo, projectFields_keys fs _ out hp, projectFields_lookup fs _ out hnd hp⟩
+
+/-- **differently spelled members never reach the handler.** Two calls whose validated argument objects
+agree on every member named exactly like a field of the input struct give the handler the same input —
+whatever else the objects carry (members that differ from a field name only in case included), wherever
+it stands in the object, whatever it holds. -/
+theorem differently_spelled_members_never_reach_handler (E : Env S) (t : Tool S) (h : JVal → HRet)
+    (a a' : Args) (fs : SFields) (kvs kvs' : Fields)
+    (hdec : t.decodeIn = project (.struct fs))
+    (hd : defaulted E t.inSchema a = some (.obj kvs)) (hv : E.valid t.inSchema (.obj kvs) = true)
+    (hd' : defaulted E t.inSchema a' = some (.obj kvs')) (hv' : E.valid t.inSchema (.obj kvs') = true)
+    (hagree : ∀ n ∈ fieldNames fs, lookupJ n kvs = lookupJ n kvs') :
+    (call E t h a).seen = (call E t h a').seen := by
+  rw [seen_eq_decode E t h a _ hd hv, seen_eq_decode E t h a' _ hd' hv', hdec]
+  simp only [project, projectFields_congr fs kvs kvs' hagree]
+
+/-- … in particular an extra member whose name is not exactly a field's name is dropped: the handler's
+input is the same as without it. -/
+theorem unknown_member_is_dropped (fs : SFields) (pre post : Fields) (k : String) (v : JVal)
+    (hk : k ∉ fieldNames fs) :
+    project (.struct fs) (.obj (pre ++ (k, v) :: post)) = project (.struct fs) (.obj (pre ++ post)) := by
+  simp only [project, projectFields_unknown_member_dropped fs pre post k v hk]
+
+/-- with the reference filler the validated arguments are always an object (so `membersOf` above is the
+object's own member list) -/
+theorem defaulted_is_object (s : Schema) (a : Args) (d : JVal)
+    (hd : defaulted (refEnv lossy64) s a = some d) : ∃ kvs, d = .obj kvs := by
+  obtain ⟨c, ps, ap, items⟩ := s
+  simp only [defaulted, decoded, refEnv, Option.map_map, Option.map_eq_some_iff] at hd
+  obtain ⟨m, hm, hd⟩ := hd
+  have hobj : ∃ fs, m = .obj fs := by
+    cases a with
+    | absent => simp only [argsMap, Option.some.injEq] at hm; exact ⟨[], hm.symm⟩
+    | val v =>
+      cases v with
+      | null => simp only [argsMap, Option.some.injEq] at hm; exact ⟨[], hm.symm⟩
+      | obj fs => simp only [argsMap, Option.some.injEq] at hm; exact ⟨fs, hm.symm⟩
+      | bool b => simp [argsMap] at hm
+      | num n => simp [argsMap] at hm
+      | str s => simp [argsMap] at hm
+      | arr xs => simp [argsMap] at hm
+  obtain ⟨fs, rfl⟩ := hobj
+  simp only [Function.comp, lossy64, mapNum, fill] at hd
+  exact ⟨_, hd.symm⟩
 
 /-! ## output side -/
 
@@ -518,6 +600,55 @@ theorem f9_counterexample_unrepaired :
 theorem f9_repaired_exact :
     seenEqv (call (refEnv lossy64) wTool wEcho (wArgs 9007199254740993))
       (fill wSchema (.obj [("n", .num (.ofInt 9007199254740993))])) = true := by decide
+
+/-! ### member names are matched exactly -/
+
+/-- `{"type":"object","properties":{"query":{"type":"string"},"maxItems":{"type":"integer","minimum":1,
+"maximum":100,"default":50}},"required":["query"]}` — additional properties allowed -/
+def cSchema : Schema :=
+  .mk { ty := [.object], required := ["query"] }
+    [("query", .mk { ty := [.string] } [] none none),
+     ("maxItems", .mk { ty := [.integer], minimum := some (.ofInt 1), maximum := some (.ofInt 100),
+                        dflt := some (.num (.ofInt 50)) } [] none none)] none none
+
+/-- `struct{ Query string "query"; MaxItems int64 "maxItems" }` -/
+def cTy : GoTy := .struct [("query", false, .string), ("maxItems", false, .int64)]
+
+def cTool (dec : JVal → Option JVal) : Tool Schema :=
+  { inSchema := cSchema, outSchema := none, outRootObject := false, elemZero := none, decodeIn := dec }
+
+/-- `{"maxItems":10,"maxitems":100000,"query":"x"}`: valid — `maxitems` is an additional property -/
+def cArgs : Args :=
+  .val (.obj [("maxItems", .num (.ofInt 10)), ("maxitems", .num (.ofInt 100000)), ("query", .str "x")])
+/-- `{"maxitems":100000,"query":"x"}`: valid, and `maxItems` takes its default -/
+def cArgsDflt : Args := .val (.obj [("maxitems", .num (.ofInt 100000)), ("query", .str "x")])
+
+/-- non-vacuity of `handler_sees_exactly_validated_members` / `unknown_member_is_dropped`: the member
+`maxitems` is not the property `maxItems`; the handler sees the validated 10, resp. the default 50 -/
+example :
+    seenEqv (call (refEnv lossy64) (cTool (project cTy)) wEcho cArgs)
+      (.obj [("query", .str "x"), ("maxItems", .num (.ofInt 10))]) = true ∧
+    seenEqv (call (refEnv lossy64) (cTool (project cTy)) wEcho cArgsDflt)
+      (.obj [("query", .str "x"), ("maxItems", .num (.ofInt 50))]) = true ∧
+    (fieldNames [("query", false, GoTy.string), ("maxItems", false, GoTy.int64)]).Nodup ∧
+    "maxitems" ∉ fieldNames [("query", false, GoTy.string), ("maxItems", false, GoTy.int64)] := by decide
+
+/-- a name matching that identifies `maxitems` with `maxItems`, as `encoding/json`'s does -/
+def cFold (s : String) : String := if s = "maxitems" then "maxItems" else s
+
+/-- **why the decode must match member names exactly.** With a decoder that matches names up to case
+(`projectFold`; last matching member in key order wins — `encoding/json`) in the place of `project`, the
+same two valid calls still run the handler, but it receives `maxItems = 100000`: a value that was never
+validated as `maxItems`, overrides the validated 10 resp. the applied default 50, and makes the
+handler's input INVALID under the input schema. So `handler_sees_exactly_validated_members` is a
+property of the exact-name decode the wrapper has, not of typed decoding as such. -/
+theorem fold_decode_counterexample :
+    valid cSchema (fill cSchema (.obj [("maxItems", .num (.ofInt 10)), ("maxitems", .num (.ofInt 100000)), ("query", .str "x")])) = true ∧
+    seenEqv (call (refEnv lossy64) (cTool (projectFold cFold cTy)) wEcho cArgs)
+      (.obj [("query", .str "x"), ("maxItems", .num (.ofInt 100000))]) = true ∧
+    seenEqv (call (refEnv lossy64) (cTool (projectFold cFold cTy)) wEcho cArgsDflt)
+      (.obj [("query", .str "x"), ("maxItems", .num (.ofInt 100000))]) = true ∧
+    valid cSchema (.obj [("query", .str "x"), ("maxItems", .num (.ofInt 100000))]) = false := by decide
 
 /-! ### registration witnesses -/
 
